@@ -12,6 +12,7 @@ fn conversions(ctx: &mut Ctx) {
     let d = model::dna();
     ctx.group("dna-to-iupac-and-text", |ctx| {
         let mut lens = boundary_lengths(2, 3);
+        lens.extend(long_lengths(2));
         if ctx.lite {
             lens = vec![0, 1, 33];
         }
@@ -190,7 +191,7 @@ fn trims<C: CI>(ctx: &mut Ctx) {
             }
             let pre = ctx.rng.below(5);
             let post = ctx.rng.below(5);
-            let ncore = match r % 5 { 0 => 0, 1 => 1, 2 => 2, _ => 3 + ctx.rng.below(2 * per_word(a.bits)) };
+            let ncore = match r % 5 { 0 => 0, 1 => 1, 2 => 2, _ if r % 40 == 3 && !ctx.lite => 3 + ctx.rng.below(34 * per_word(a.bits)), _ => 3 + ctx.rng.below(2 * per_word(a.bits)) };
             let mut core: Vec<u8> = (0..ncore).map(|_| *ctx.rng.pick(&chars)).collect();
             let mut class = if ncore == 0 { "no-acceptable-byte" } else { "clean-core" };
             // interior bad bytes: never first/last of the core; position len-2 over-represented
